@@ -468,6 +468,9 @@ def job_apps(job) -> report.JobResult:
     SSeq.NORMALIZE = False
     if app_kind in ("files", "pages"):
         path = SStr.fresh(n, "p", 0, 0x10FFFF, eng.solver)
+        if n >= 3:  # as in C07: the WSGI presentation of non-ASCII text forks per encoding class; beyond 2 characters the path is ASCII
+            for c in path.items:
+                eng.solver.add(c.e < 128)
         path = SStr([ord(c) for c in job.get("pre", "")] + path.items + [ord(c) for c in job.get("post", "")])
         shims = C7.make_shims()
 
